@@ -124,7 +124,8 @@ fn build(mask: u32, fns: &[&FnSpec]) -> dr::Module {
         let (maj, min) = [(1u8, 0u8), (1, 1), (1, 3), (1, 4), (1, 6), (0, 0), (255, 255)][(mask % 7) as usize];
         h.set_version(maj, min);
         // every header word arbitrary
-        h.magic_number = 0x1111_1111;
+        // magic: arbitrary, the real one, the byte-swapped real one, 0, 2^32-1
+        h.magic_number = [0x1111_1111u32, 0x0723_0203, 0x0302_2307, 0, 0xFFFF_FFFF][(mask % 5) as usize];
         h.generator = 0x2222_0003;
         h.reserved_word = 0x4444_4444;
         m.header = Some(h);
@@ -246,6 +247,119 @@ fn big_modules() -> Vec<(String, Box<dyn Fn() -> dr::Module + Sync + Send>)> {
         m.types_global_values = seq();
         m
     })));
+    // "semantic" modules: real instruction shapes in their sections (every Capability, every shape of every annotation /
+    // execution-mode / entry-point / debug opcode incl. nested parameters), every id collapsed onto 1, and four functions
+    // that all carry result id 1: with a body, without blocks, with a body, without blocks. Only the assemble clause
+    // applies (ids are no identity here); for two magic numbers
+    for magic in [0x0723_0203u32, 0x0302_2307] {
+        out.push((format!("big: semantic sections, all ids equal, magic {:#x}", magic), Box::new(move || {
+            let g = crate::golden::golden();
+            let one = |i: &crate::model::Inst| crate::model::to_dr(&crate::model::remap_ids(i, &|_| 1));
+            let pattern = crate::universe::pattern_shapes(Tier::Quick);
+            let of = |names: &[&str]| -> Vec<dr::Instruction> {
+                let mut v = vec![];
+                for n in names {
+                    let gi = g.inst(n);
+                    for s in crate::universe::shapes(gi, Tier::Quick).into_iter().chain(pattern.iter().filter(|s| s.inst.opcode == gi.opcode).cloned()) {
+                        if let Some(d) = one(&s.inst) {
+                            v.push(d);
+                        }
+                    }
+                }
+                v
+            };
+            let mut m = dr::Module::new();
+            m.capabilities = of(&["Capability"]);
+            m.extensions = of(&["Extension"]);
+            m.ext_inst_imports = of(&["ExtInstImport"]);
+            m.memory_model = of(&["MemoryModel"]).into_iter().next();
+            m.entry_points = of(&["EntryPoint"]);
+            m.execution_modes = of(&["ExecutionMode", "ExecutionModeId"]);
+            m.debug_string_source = of(&["String", "Source", "SourceExtension", "SourceContinued"]);
+            m.debug_names = of(&["Name", "MemberName"]);
+            m.debug_module_processed = of(&["ModuleProcessed"]);
+            m.annotations = of(&["Decorate", "MemberDecorate", "DecorateId", "DecorateString", "MemberDecorateString", "DecorationGroup", "GroupDecorate"]);
+            m.types_global_values = of(&["TypeVoid", "TypeInt", "TypeFunction", "TypePointer", "Constant", "Variable"]);
+            for k in 0..4 {
+                let mut f = dr::Function::new();
+                f.def = one(&crate::universe::minimal(g.inst("Function")));
+                f.end = one(&crate::universe::minimal(g.inst("FunctionEnd")));
+                if k % 2 == 0 {
+                    let mut b = dr::Block::new();
+                    b.label = one(&crate::universe::minimal(g.inst("Label")));
+                    b.instructions = of(&["Variable", "Load", "Store", "Return"]);
+                    f.blocks.push(b);
+                } else {
+                    f.parameters = of(&["FunctionParameter"]);
+                }
+                m.functions.push(f);
+            }
+            let mut h = dr::ModuleHeader::new(2);
+            h.magic_number = magic;
+            m.header = Some(h);
+            // unique result ids are NOT given here on purpose; check_module's id-based clauses see equal ids everywhere
+            // and only its assemble clause can tell orders apart
+            for i in m.all_inst_iter_mut() {
+                if i.result_id.is_none() {
+                    i.result_id = Some(1);
+                }
+            }
+            m
+        })));
+    }
+    // "linked" modules: three functions with distinct result ids, each with or without a body; capabilities any subset of
+    // {Linkage, Shader, Kernel}; a linkage decoration (Import / Export), a name and an entry point whose target is the
+    // result id of none / one / each of the functions. Every instruction carries a unique result id (the order tag); the
+    // stored order of the functions is the order of assembly whatever the sections say about them
+    for caps in 0..8u32 {
+        for bodies in 0..8u32 {
+            for target in 0..5u32 {
+                for lt in 0..2u32 {
+                    out.push((format!("linked: capabilities {:#05b}, bodies {:#05b}, linkage target {}, linkage type {}", caps, bodies, target, lt), Box::new(move || {
+                        let mut next = 1000u32;
+                        let mut tag = |op: spirv::Op, ops: Vec<dr::Operand>| {
+                            next += 1;
+                            dr::Instruction::new(op, None, Some(next), ops)
+                        };
+                        let fid = |k: u32| 100 + k;
+                        let mut m = dr::Module::new();
+                        for (bit, c) in [spirv::Capability::Linkage, spirv::Capability::Shader, spirv::Capability::Kernel].into_iter().enumerate() {
+                            if caps & (1 << bit) != 0 {
+                                m.capabilities.push(tag(spirv::Op::Capability, vec![dr::Operand::Capability(c)]));
+                            }
+                        }
+                        let targets: Vec<u32> = match target {
+                            0 => vec![],
+                            4 => vec![0, 1, 2],
+                            k => vec![k - 1],
+                        };
+                        for k in &targets {
+                            m.annotations.push(tag(spirv::Op::Decorate, vec![dr::Operand::IdRef(fid(*k)), dr::Operand::Decoration(spirv::Decoration::LinkageAttributes), dr::Operand::LiteralString(format!("f{}", k)), dr::Operand::LinkageType(if lt == 0 { spirv::LinkageType::Import } else { spirv::LinkageType::Export })]));
+                            m.debug_names.push(tag(spirv::Op::Name, vec![dr::Operand::IdRef(fid(*k)), dr::Operand::LiteralString(format!("f{}", k))]));
+                            m.entry_points.push(tag(spirv::Op::EntryPoint, vec![dr::Operand::ExecutionModel(spirv::ExecutionModel::GLCompute), dr::Operand::IdRef(fid(2 - *k)), dr::Operand::LiteralString("main".into())]));
+                        }
+                        m.types_global_values.push(tag(spirv::Op::TypeVoid, vec![]));
+                        for k in 0..3u32 {
+                            let mut f = dr::Function::new();
+                            f.def = Some(dr::Instruction::new(spirv::Op::Function, Some(1001), Some(fid(k)), vec![dr::Operand::FunctionControl(spirv::FunctionControl::NONE), dr::Operand::IdRef(1001)]));
+                            f.end = Some(tag(spirv::Op::FunctionEnd, vec![]));
+                            if bodies & (1 << k) != 0 {
+                                let mut b = dr::Block::new();
+                                b.label = Some(tag(spirv::Op::Label, vec![]));
+                                b.instructions.push(tag(spirv::Op::Return, vec![]));
+                                f.blocks.push(b);
+                            } else {
+                                f.parameters.push(tag(spirv::Op::FunctionParameter, vec![]));
+                            }
+                            m.functions.push(f);
+                        }
+                        m.header = Some(dr::ModuleHeader::new(2000));
+                        m
+                    })));
+                }
+            }
+        }
+    }
     for (maj, min) in [(1u8, 0u8), (1, 1), (1, 2), (1, 3), (1, 4), (1, 5), (1, 6), (0, 0), (2, 0), (255, 255)] {
         out.push((format!("big: version {}.{}, every opcode once in every section and in a block", maj, min), Box::new(move || {
             let ops: Vec<spirv::Op> = crate::golden::golden().insts.iter().filter_map(|gi| spirv::Op::from_u32(gi.opcode as u32)).collect();
@@ -359,6 +473,23 @@ fn check_module(make: &dyn Fn() -> dr::Module, label: &str, rep: serde_json::Val
             let fw: Vec<u32> = f.all_inst_iter_mut().map(|i| i.result_id.unwrap()).collect();
             if fw != ids[a..b] {
                 bad.push(("Function::all_inst_iter_mut".into(), format!("function {} visits {}, its slice is {}", fi, brief(&fw), brief(&ids[a..b]))));
+            }
+        }
+        // assembling = header words ++ assembly of each visited instruction: first on the module as it was made (ids in one
+        // section may name ids in another: a decoration's target, an entry point's function), then once more below, after
+        // every result id was rewritten through the mutable traversal
+        {
+            let mut want: Vec<u32> = vec![];
+            if let Some(h) = &m.header {
+                want.extend([h.magic_number, h.version, h.generator, h.bound, h.reserved_word]);
+            }
+            for i in m.all_inst_iter() {
+                want.extend(i.assemble());
+            }
+            let asm = m.assemble();
+            if asm != want {
+                let at = asm.iter().zip(want.iter()).position(|(a, b)| a != b);
+                bad.push(("assemble".into(), format!("module.assemble() ({} words) is not header ++ concatenation of the visited instructions ({} words); first difference at word {:?}", asm.len(), want.len(), at)));
             }
         }
         // the mutable traversal really yields the module's own instructions: mutate through it, observe through the other
